@@ -17,18 +17,20 @@ EXTENDS Driver, TLC
 CONSTANTS MaxLines, MaxFiles, Kinds, OptSpace
 \* Kinds: the line classes to choose from (set of records); OptSpace: set of option records
 
-VARIABLES opts, done, cur, st, st1, pass, li, carry, results, globErr, status, pc
-vars == <<opts, done, cur, st, st1, pass, li, carry, results, globErr, status, pc>>
+VARIABLES opts, done, cur, st, acc, pcar, pass, li, carry, results, globErr, status, pc
+vars == <<opts, done, cur, st, acc, pcar, pass, li, carry, results, globErr, status, pc>>
+\* acc  = what the finished passes of the current file wrote (channel totals, discounted lines)
+\* pcar = the carry the current pass started with (carry of the file + what earlier passes handed over)
 
 Init == /\ opts \in OptSpace
-        /\ done = <<>> /\ cur = <<>> /\ st = Fresh({}) /\ st1 = Fresh({}) /\ pass = 1 /\ li = 0 /\ carry = {}
+        /\ done = <<>> /\ cur = <<>> /\ st = Fresh({}) /\ acc = ZeroAcc /\ pcar = {} /\ pass = 1 /\ li = 0 /\ carry = {}
         /\ results = <<>> /\ globErr = FALSE /\ status = 9 /\ pc = "lines"
 
 \* ---- one action per line class ----------------------------------------------------------------------
 AddLine(ln) == /\ pc = "lines" /\ Len(cur) < MaxLines /\ ~st.d.fatal /\ ~Opened(st.c) /\ BurstOK(st, ln)
                /\ cur' = Append(cur, ln)
                /\ st' = LineStep(opts, st, ln, 1)
-               /\ UNCHANGED <<opts, done, st1, pass, li, carry, results, globErr, status, pc>>
+               /\ UNCHANGED <<opts, done, acc, pcar, pass, li, carry, results, globErr, status, pc>>
 
 OfKind(k) == {ln \in Kinds : ln.k = k}
 OkLine     == \E ln \in OfKind("ok") : AddLine(ln)
@@ -39,56 +41,55 @@ UserWarn   == \E ln \in OfKind("uwarn") : AddLine(ln)
 UserErr    == \E ln \in OfKind("uerr") : AddLine(ln)
 UserFatal  == \E ln \in OfKind("ufatal") : AddLine(ln)
 FwdLine    == \E ln \in OfKind("fwd") \cup OfKind("undef") : AddLine(ln)
+JumpLine   == \E ln \in OfKind("tjmp") \cup OfKind("pjmp") : AddLine(ln)
 ErrBurst   == \E ln \in OfKind("burstE") : AddLine(ln)
 WarnBurst  == \E ln \in OfKind("burstW") \cup OfKind("burstU") : AddLine(ln)
 ExpectLine == \E ln \in OfKind("expect") \cup OfKind("endexpect") : AddLine(ln)
 FlagLine   == \E ln \in OfKind("flag") \cup OfKind("probe") \cup OfKind("use") : AddLine(ln)
 OpenLine   == \E ln \in OfKind("open") : AddLine(ln)
 
-\* pass 2 re-reads the same text
+\* later passes re-read the same text
 ReLine == /\ pc = "lines2" /\ li < Len(cur) /\ ~st.d.fatal
-          /\ st' = LineStep(opts, st, cur[li + 1], 2) /\ li' = li + 1
-          /\ UNCHANGED <<opts, done, cur, st1, pass, carry, results, globErr, status, pc>>
+          /\ st' = LineStep(opts, st, cur[li + 1], pass) /\ li' = li + 1
+          /\ UNCHANGED <<opts, done, cur, acc, pcar, pass, carry, results, globErr, status, pc>>
+
+ResultNow == FileResult(opts, st, pass, acc.e + st.d.emE, acc.w + st.d.emW, acc.f + st.d.emF, acc.disc)
 
 \* exit(3) from inside WrErrorString: <f>.p of the current file is unlinked, nothing else happens
 FatalStop == /\ pc \in {"lines", "lines2", "passend"} /\ st.d.fatal
-             /\ LET chE == IF pass = 2 THEN st1.d.emE + st.d.emE ELSE st.d.emE
-                    chW == IF pass = 2 THEN st1.d.emW + st.d.emW ELSE st.d.emW
-                    chF == IF pass = 2 THEN st1.d.emF + st.d.emF ELSE st.d.emF
-                IN results' = Append(results, FileResult(opts, st, pass, chE, chW, chF))
+             /\ results' = Append(results, ResultNow)
              /\ done' = Append(done, cur) /\ status' = 3 /\ pc' = "done"
-             /\ UNCHANGED <<opts, cur, st, st1, pass, li, carry, globErr>>
+             /\ UNCHANGED <<opts, cur, st, acc, pcar, pass, li, carry, globErr>>
 
 EndOfPass == /\ (pc = "lines" \/ (pc = "lines2" /\ li = Len(cur))) /\ ~st.d.fatal
              /\ pc = "lines" => (cur # <<>> \/ done = <<>>)     \* (an empty first file is allowed, later ones are not needed)
              /\ st' = EndPassStep(opts, st) /\ pc' = "passend"
-             /\ UNCHANGED <<opts, done, cur, st1, pass, li, carry, results, globErr, status>>
+             /\ UNCHANGED <<opts, done, cur, acc, pcar, pass, li, carry, results, globErr, status>>
 
 \* while (ErrorCount == 0 && Repass): the output is unlinked and everything starts over
-NextPass == /\ pc = "passend" /\ ~st.d.fatal /\ st.d.err = 0 /\ st.c.repass /\ pass = 1
-            /\ st1' = st /\ pass' = 2 /\ li' = 0 /\ pc' = "lines2"
-            /\ st' = Fresh(carry \cup (st.c.flags \cap Leaky))
+NextPass == /\ pc = "passend" /\ Again(st, pass)
+            /\ acc' = AddAcc(acc, st.d) /\ pass' = pass + 1 /\ li' = 0 /\ pc' = "lines2"
+            /\ pcar' = Handover(pcar, st)
+            /\ st' = FreshP(Handover(pcar, st), st.c.nowErr)
             /\ UNCHANGED <<opts, done, cur, carry, results, globErr, status>>
 
-EndOfFile == /\ pc = "passend" /\ ~st.d.fatal /\ ~(st.d.err = 0 /\ st.c.repass /\ pass = 1)
-             /\ LET chE == IF pass = 2 THEN st1.d.emE + st.d.emE ELSE st.d.emE
-                    chW == IF pass = 2 THEN st1.d.emW + st.d.emW ELSE st.d.emW
-                    chF == IF pass = 2 THEN st1.d.emF + st.d.emF ELSE st.d.emF
-                    r   == FileResult(opts, st, pass, chE, chW, chF)
+EndOfFile == /\ pc = "passend" /\ ~st.d.fatal /\ ~Again(st, pass)
+             /\ LET r  == ResultNow
+                    c2 == (carry \ JmpTokens) \cup r.left
                 IN /\ results' = Append(results, r)
                    /\ globErr' = (globErr \/ st.d.err # 0)          \* reads the counter, as the code does
-                   /\ carry' = carry \cup r.left
-                   /\ st' = Fresh(carry \cup r.left)                 \* FileBegin + PassBegin of the next file
-             /\ done' = Append(done, cur) /\ cur' = <<>> /\ pass' = 1 /\ li' = 0 /\ st1' = Fresh({})
+                   /\ carry' = c2 /\ pcar' = c2
+                   /\ st' = Fresh(c2)                               \* FileBegin + PassBegin of the next file
+             /\ done' = Append(done, cur) /\ cur' = <<>> /\ pass' = 1 /\ li' = 0 /\ acc' = ZeroAcc
              /\ pc' = IF Len(done) + 1 >= MaxFiles THEN "end" ELSE "lines"
              /\ UNCHANGED <<opts, status>>
 
 EndOfRun == /\ (pc = "end" \/ (pc = "lines" /\ cur = <<>> /\ done # <<>>))
             /\ status' = (IF globErr THEN 2 ELSE 0) /\ pc' = "done"
-            /\ UNCHANGED <<opts, done, cur, st, st1, pass, li, carry, results, globErr>>
+            /\ UNCHANGED <<opts, done, cur, st, acc, pcar, pass, li, carry, results, globErr>>
 
 Next == \/ OkLine \/ WarnLine \/ ErrLine \/ FatalLine \/ UserWarn \/ UserErr \/ UserFatal \/ FwdLine
-        \/ ErrBurst \/ WarnBurst \/ ExpectLine \/ FlagLine \/ OpenLine
+        \/ JumpLine \/ ErrBurst \/ WarnBurst \/ ExpectLine \/ FlagLine \/ OpenLine
         \/ ReLine \/ FatalStop \/ EndOfPass \/ NextPass \/ EndOfFile \/ EndOfRun
 
 Spec == Init /\ [][Next]_vars
@@ -97,10 +98,13 @@ Spec == Init /\ [][Next]_vars
 \* constant sets for the configurations (substituted in the .cfg files)
 Ln(k, n, f, t) == [k |-> k, n |-> n, f |-> f, t |-> t]      \* uniform shape of a line class
 S(k) == Ln(k, 0, "", "")
-BaseOpt == [werror |-> FALSE, maxerr |-> 0, suppw |-> FALSE, codeout |-> TRUE,
+BaseOpt == [werror |-> FALSE, maxerr |-> 0, suppw |-> FALSE, codeout |-> TRUE, throw |-> FALSE,
             q |-> TRUE, x |-> 0, n |-> FALSE, gnu |-> FALSE, E |-> "stderr", L |-> FALSE]
 OptsDiag == {[BaseOpt EXCEPT !.werror = w, !.maxerr = m, !.suppw = s] : w \in BOOLEAN, m \in {0, 1, 2, 3}, s \in BOOLEAN}
 OptsTwo  == {[BaseOpt EXCEPT !.maxerr = m] : m \in {0, 1}}
+\* the jump-error discard protocol: with / without -Y, -maxerrors off / 2, -Werror
+OptsJump == {[BaseOpt EXCEPT !.throw = y, !.maxerr = m, !.werror = w] : y \in BOOLEAN, m \in {0, 2}, w \in BOOLEAN}
+KindsJump == {S("ok"), S("err"), S("uwarn"), S("uerr"), S("fwd"), S("undef"), S("tjmp"), S("pjmp")}
 OptsReport == {[BaseOpt EXCEPT !.werror = w, !.q = q, !.E = e, !.x = x, !.gnu = g, !.n = nn, !.L = l] :
                  w \in BOOLEAN, q \in BOOLEAN, e \in {"stderr", "stdout", "file", "log"}, x \in 0..2, g \in BOOLEAN,
                  nn \in BOOLEAN, l \in BOOLEAN}
@@ -134,6 +138,7 @@ ErrorsDropCode       == Finished => C02_ErrorsDropCode(results)
 ErrorStatus          == Finished => C02_ErrorStatus(status, results)
 SummaryAgrees        == C02_SummaryAgrees(results)
 WerrorLeavesNoWarnings == C02_WerrorLeavesNoWarnings(opts, results)
+NoDiscardWithoutY    == C02_NoDiscardWithoutY(opts, results)
 \* warnings alone never change status or code file unless -Werror
 WarningsHarmless == (Finished /\ ~opts.werror /\ \A i \in 1..Len(results) : ~Reported(results[i]))
                        => status = 0 /\ \A i \in 1..Len(results) : results[i].kept
